@@ -175,10 +175,18 @@ func explore(t *testing.T, r *ev.Run, prop string, cs []cell, domains map[string
 
 func TestC02(t *testing.T) {
 	r := ev.Start("C02", "fault_enumeration")
-	r.Rule("for each cell (9 key states x {simple cache, no cache, lru cap-1 shared} x {encrypt}) a clean run records the trace of metastore and KMS calls of the operation under test; then EVERY call index gets every fault kind valid for it (Load/LoadLatest: error; Store: error-without-write, false-without-write, write-then-error, write-then-false; KMS: error) and, depth-first, every second fault at every later call of the faulted run (and, thorough tier, a seeded 35% sample of third faults). After each execution: record/err shape, IK row and SK row present in the raw store, a brand-new cache-less factory (crash model) decrypts the record, and once faults stop the next encrypt and the earlier records work on the same session. Distinct+non-trivial: (cell, fault plan) pairs in which a fault actually fired.")
+	r.Rule("for each cell (10 key states x {simple cache, no cache, lru cap-1 shared} x {encrypt}) a clean run records the trace of metastore and KMS calls of the operation under test; then EVERY call index gets every fault kind valid for it (Load/LoadLatest: error; Store: error-without-write, false-without-write, write-then-error, write-then-false; KMS: error) and, depth-first, every second fault at every later call of the faulted run (and, thorough tier, a seeded 35% sample of third faults). After each execution: record/err shape, IK row and SK row present in the raw store, a brand-new cache-less factory (crash model) decrypts the record, and once faults stop the next encrypt and the earlier records work on the same session. The enumeration is repeated (single faults, sampled pairs) over region-suffixed key ids and over both DynamoDB plug-ins on the semantic fake. Distinct+non-trivial: (cell, fault plan) pairs in which a fault actually fired.")
 	r.Assume("virtual clock (testing/synctest) fixes creation stamps", "a crash is modelled by discarding the factory and reading only the metastore and the KMS", "partial writes inside a real database are out of reach")
 	cs := cells(ev.Pick([]string{"simple", "nocache", "lru1-shared"}, []string{"simple", "nocache", "lru1-shared", "sesscache"}), ev.Pick([]string{"enc"}, []string{"enc", "dec"}))
 	explore(t, r, "C02", cs, map[string]bool{"ms": true, "kms": true, "aead": true}, ev.Pick(30, 100))
+	// the same enumeration end to end over region-suffixed key ids and over the DynamoDB plug-ins (single faults and
+	// a sample of pairs)
+	for _, v := range [][2]string{{"memory", "us-west-2"}, {"dynamodb-v1", ""}, {"dynamodb-v2", "eu-west-1"}} {
+		execBackend, execSuffix = v[0], v[1]
+		explore(t, r, "C02", cells([]string{"simple", "nocache"}, []string{"enc"}), map[string]bool{"ms": true, "kms": true}, ev.Pick(4, 40))
+		r.Count("passes_over_"+v[0]+"_suffix_"+v[1], 1)
+	}
+	execBackend, execSuffix = "memory", ""
 	r.Finish(t)
 }
 
